@@ -234,6 +234,12 @@ func dynCallKey(c *ssa.CallCommon) string {
 		fn := p.Parent()
 		return fnKey(fn) + ".param." + p.Name()
 	}
+	// a value of a named function type: "pkg.TypeName"
+	if n, ok := v.Type().(*types.Named); ok && n.Obj().Pkg() != nil {
+		if _, ok := n.Underlying().(*types.Signature); ok {
+			return n.Obj().Pkg().Path() + "." + n.Obj().Name()
+		}
+	}
 	return ""
 }
 
@@ -339,6 +345,10 @@ func (st *State) applyContract(fr *Frame, in ssa.CallInstruction, ct *Contract, 
 	}
 	for _, c := range ct.Ensures {
 		st.assume(st.elabBool(env, c.E))
+	}
+	for _, g := range ct.GhostSet {
+		v, _ := st.elab(env, g.E)
+		st.ghostSet(g.Label, nil, st.scalar(v))
 	}
 	k(st, res)
 }
